@@ -335,6 +335,82 @@ class _NP:
         return getattr(self._real, k)
 
 
+def check_sampler_wiring(chk, mcmc, peds, n_max, logf_of, base_of):
+    """what `mcmc_sampler` hands to its moves: the source of the sampler runs with `compound_step` and `pair_allele_swap_step`
+    replaced by recorders.  Per iteration: one compound step, then one exchange per unordered pair of known parents, each with a
+    blanket that lists the two parents and every individual with one of them as a parent exactly once (the exchange multiplies
+    the inheritance terms of the listed individuals: a repeated one is counted twice, a missing one not at all), and the
+    pedigree / parameters / reads of the call itself."""
+    import inspect
+    f = mcmc.mcmc_sampler.py_func
+    g = f.__globals__
+    orig_c, orig_s = g["compound_step"], g["pair_allele_swap_step"]
+    sig_c, sig_s = inspect.signature(orig_c.py_func), inspect.signature(orig_s.py_func)
+    for pi, P in enumerate(peds[:n_max]):
+        calls = []
+
+        def rec_c(*a, **kw):
+            calls.append(("compound", dict(sig_c.bind(*a, **kw).arguments)))
+
+        def rec_s(*a, **kw):
+            d = dict(sig_s.bind(*a, **kw).arguments)
+            d["markov_blanket"] = np.array(d["markov_blanket"]).copy()
+            calls.append(("swap", d))
+            return np.nan, False
+
+        n_steps = 2
+        g["compound_step"], g["pair_allele_swap_step"] = rec_c, rec_s
+        try:
+            f(P["state"].copy(), P["ploidy"], P["parents"], P["tau"], P["lam"], P["err"], P["reads"], P["counts"], P["haps"], logf_of(P),
+              n_steps=n_steps, annealing=0, step_type=pi % 2, swap_parental_alleles=True)
+        finally:
+            g["compound_step"], g["pair_allele_swap_step"] = orig_c, orig_s
+        par = P["parents"]
+        N = P["N"]
+        want_pairs = sorted({tuple(sorted((int(par[i, 0]), int(par[i, 1])))) for i in range(N) if par[i, 0] >= 0 and par[i, 1] >= 0})
+        case = {**base_of(P), "expected_pairs": [list(x) for x in want_pairs]}
+        chk.case(["sampler-wiring", pi], len(want_pairs) >= 1)
+        chk.count("sampler-wiring"); chk.count("sampler-wiring:pairs=%d" % min(len(want_pairs), 3))
+        if any(par[i, 0] > par[i, 1] >= 0 for i in range(N)):
+            chk.count("sampler-wiring:a-child-lists-the-higher-numbered-parent-first")
+        kinds = [k for k, _ in calls]
+        per_step = ["compound"] + ["swap"] * len(want_pairs)
+        if kinds != per_step * n_steps:
+            chk.disagreement("mcmc_sampler does not run one compound step followed by one exchange per pair of known parents in each "
+                             "iteration (the structure this check observes it through)", {**case, "calls": kinds})
+            continue
+        passed = {"sample_ploidy": P["ploidy"], "sample_parents": P["parents"], "gamete_tau": P["tau"], "gamete_lambda": P["lam"],
+                  "gamete_error": P["err"], "sample_read_dists": P["reads"], "sample_read_counts": P["counts"], "haplotypes": P["haps"],
+                  "log_frequencies": logf_of(P)}
+        for step in range(n_steps):
+            blk = calls[step * len(per_step):(step + 1) * len(per_step)]
+            got_pairs = sorted(tuple(sorted((int(d["p"]), int(d["q"])))) for k, d in blk if k == "swap")
+            if got_pairs != want_pairs:
+                chk.violation("the pairs handed to the exchange move are not the pairs of known parents, each once",
+                              {**case, "pairs": [list(x) for x in got_pairs]}, "C18/sampler/pairs")
+                break
+            bad = None
+            for k, d in blk:
+                for name, v in passed.items():
+                    w = d.get(name)
+                    if w is None or np.shape(w) != np.shape(v) or not np.array_equal(np.asarray(w), np.asarray(v), equal_nan=True):
+                        bad = (k, name)
+                if k == "swap":
+                    pp, qq = int(d["p"]), int(d["q"])
+                    bl = sorted(int(x) for x in d["markov_blanket"] if x >= 0)
+                    want_bl = sorted({pp, qq} | {c for c in range(N) if par[c, 0] in (pp, qq) or par[c, 1] in (pp, qq)})
+                    if bl != want_bl:
+                        chk.violation("the blanket mcmc_sampler hands to the exchange of a parental pair is not the two parents and "
+                                      "each individual with one of them as a parent, once each",
+                                      {**case, "p": pp, "q": qq, "blanket": bl, "expected": want_bl}, "C18/sampler/blanket")
+                        bad = bad or ("swap", "markov_blanket (reported)")
+            if bad and not bad[1].endswith("(reported)"):
+                chk.violation(f"mcmc_sampler hands its {bad[0]} move a {bad[1]} that is not the one it was called with",
+                              {**case, "move": bad[0], "argument": bad[1]}, "C18/sampler/arguments")
+            if bad:
+                break
+
+
 def run(tier, replay=None):
     from mchap.pedigree import mcmc, prior
     from mchap.pedigree.likelihood import log_likelihood_alleles_cached
@@ -781,6 +857,7 @@ def run(tier, replay=None):
                                           "sample's genotype", {**case, "sample": int(smp), "genotype": g.tolist(), "cached": float(v)},
                                           "C18/swap/cache")
                         break
+    check_sampler_wiring(chk, mcmc, peds, {"warm": 3, "quick": 120, "thorough": 10 ** 9}[tier], logf_of, base_of)
     sigs = {}
     for v in chk.violations:
         sigs[v["signature"]] = sigs.get(v["signature"], 0) + 1
